@@ -28,9 +28,7 @@ import sys
 import zlib
 
 import adapter
-import actions
 
-KINDS = ("AddRecord", "BulkAddRecord", "ReplaceTableData")
 TABLE = "T"
 ENGINE_REUSE = 400          # histories per engine
 
